@@ -95,8 +95,15 @@ def sh(cmd, timeout, cwd=None, env=None, inp=None):
 
 # ---------------------------------------------------------------- the Coq side
 def gen_params():
-    rc, out = sh([sys.executable, os.path.join(VERIF, "tools", "gen_params.py")], 60)
-    return rc == 0, out.strip()
+    """Returns (ok, message, failures): failures = plug-ins that no longer find their item in the Rust text.
+    Their definitions are simply absent from Params.v, so only the cones that use them stop compiling."""
+    rc, out = sh([sys.executable, os.path.join(VERIF, "tools", "gen_params.py")], 120)
+    fails = []
+    try:
+        fails = json.load(open(os.path.join(WORK, "params_failures.json")))
+    except Exception:
+        pass
+    return rc == 0, out.strip(), fails
 
 
 def coq_cone(prop_v):
@@ -216,18 +223,36 @@ def ocaml_build(timeout=900):
             glob.glob(os.path.join(COQ, "theories", "Base", "*.vo")) + \
             glob.glob(os.path.join(COQ, "theories", "Gen", "*.vo")) + \
             glob.glob(os.path.join(OCAML, "*.ml")) + [os.path.join(OCAML, "build.sh")]
-        if os.path.exists(MODEL_RUN):
+        vos = sorted(os.path.relpath(v, COQ) for v in srcs if v.endswith(".vo"))
+        stamp = os.path.join(OCAML, ".modules")
+        same_set = os.path.exists(stamp) and open(stamp).read().split("\n") == vos
+        if os.path.exists(MODEL_RUN) and same_set:
             mt = os.path.getmtime(MODEL_RUN)
             if all(os.path.getmtime(s) <= mt for s in srcs if os.path.exists(s)):
                 return 0, "up to date"
+        open(stamp, "w").write("\n".join(vos))
         return sh(["./build.sh"], timeout, cwd=OCAML)
 
 
 def model_vos_build(timeout=1500):
     """Build every Model/*.vo (no proofs) so the extraction can run even if a proof is broken."""
     with BuildLock("coq"):
-        targets = sorted("theories/Model/" + os.path.basename(f) + "o" for f in glob.glob(os.path.join(COQ, "theories", "Model", "*.v")))
-        return sh(["./mk.sh", "-j16"] + targets, timeout, cwd=COQ)
+        srcs = sorted(glob.glob(os.path.join(COQ, "theories", "Model", "*.v")))
+        targets = ["theories/Model/" + os.path.basename(f) + "o" for f in srcs]
+        rc, out = sh(["./mk.sh", "-k", "-j16"] + targets, timeout, cwd=COQ)
+        if rc != 0:
+            # a model that no longer compiles (e.g. it uses a Params definition whose plug-in failed) must not
+            # leave a stale .vo behind: the extraction would silently run yesterday's model
+            bad = set(re.findall(r"\*\*\* \[[^\]]*?(theories/Model/[\w]+\.vo)\]", out)) | \
+                set(re.findall(r"Target '(theories/Model/[\w]+\.vo)' not remade", out))
+            for t in bad:
+                vo = os.path.join(COQ, t)
+                for ext in ("", "k", "s"):
+                    if os.path.exists(vo + ext):
+                        os.remove(vo + ext)
+            failed = [os.path.basename(f) for f in srcs if not os.path.exists(f + "o")]
+            return (0 if failed else rc), out + "\nMODELS-NOT-BUILT: " + " ".join(failed)
+        return rc, out
 
 
 def harness_build(timeout=3000):
